@@ -476,6 +476,108 @@ def gen_bgp(rng, n, tier):
         add(codec, [b.d])
     return out
 
+def gen_fuzz(rng, n):
+    """Families whose NLRI decoders are behind the oracle (MUP, flowspec, flowspec-VPN, LS,
+    SR policy, EVPN, RTC): harness only, judged by the Spec oracle; this is what exercises
+    the contract 'consumes at least one byte or fails, never panics'."""
+    out = []
+    def shaped(rng):
+        L = rng.choice([0, 1, 2, 3, 4, 7, 8, 9, 12, 13, 16, 17, 21, 23, 24, 25, 33, 34, 35, 36, 255])
+        body = rbytes(rng, min(L, 60) if rng.random() < 0.7 else rng.choice([0, max(0, L - 1), L + 1]))
+        x = rng.random()
+        if x < 0.3: return [rng.choice([1, 2, 3, 4, 5, 6, 0, 255]), L & 0xff] + body            # type, len (EVPN, MUP-ish)
+        if x < 0.5: return [L & 0xff] + body                                                  # len (flowspec, SR policy, RTC bits)
+        if x < 0.6: return [0xf0 | (L >> 8) & 0xf, L & 0xff] + body                            # 2-byte flowspec length
+        if x < 0.75: return [0, rng.choice([1, 2, 3, 4, 5, 6]), L >> 8, L & 0xff] + body       # LS: type16, len16
+        if x < 0.85: return [1, rng.choice([1, 2, 3, 4]), 0, L & 0xff] + body                  # MUP: arch, type16, len
+        return rbytes(rng, rng.randint(1, 40))
+    for _ in range(n):
+        fam = rng.choice(E.OTHERS)
+        ap = rng.random() < 0.25
+        codec = {'ext': False, 'two': rng.random() < 0.2, 'nh': False, 'fams': [(E.IPV4, False), (fam, ap)]}
+        nl = []
+        for _ in range(rng.choice([1, 1, 2, 3])):
+            b = shaped(rng)
+            if fam in (E.IPV4_FS, E.IPV6_FS, E.IPV4_FSVPN, E.IPV6_FSVPN) and rng.random() < 0.5:
+                comps = []
+                for _ in range(rng.randint(1, 4)):
+                    t = rng.choice([1, 2, 3, 4, 5, 6, 7, 8, 9, 10, 11, 12, 13, 0, 14])
+                    if t in (1, 2): comps += [t, rng.choice([0, 8, 24, 32, 33, 128, 129])] + ([rng.randrange(129)] if fam >> 16 == 2 else []) + rbytes(rng, rng.randint(0, 5))
+                    else: comps += [t] + [b for _ in range(rng.randint(1, 3)) for b in [rng.choice([0x01, 0x81, 0x91, 0xa1, 0xb1, 0x80, 0x00, 0x31]), rng.randrange(256)]]
+                pre = rbytes(rng, 8) if fam in (E.IPV4_FSVPN, E.IPV6_FSVPN) else []
+                b = [len(pre + comps) & 0xff] + pre + comps
+            nl.append(E.with_path_id(rng.randrange(1 << 32), B(b)) if ap else B(b))
+        nh = rng.choice([[], rbytes(rng, 4), rbytes(rng, 16), [0] * 8 + rbytes(rng, 4)])
+        if rng.random() < 0.6:
+            attrs = [E.attr(0x40, 1, [0]), E.attr(0x40, 2, []), E.attr(0x80, 14, E.mp_reach_value(fam, nh, nl))]
+        else:
+            attrs = [E.attr(0x80, 15, E.mp_unreach_value(fam, nl))]
+        if rng.random() < 0.3:
+            attrs.append(E.attr(0xc0, rng.choice([40, 23]), shaped(rng)))
+            attrs.append(E.attr(0x80, 29, shaped(rng)))
+        d = E.update([], attrs, []).d
+        if rng.random() < 0.15:
+            d = E.fix_hdr(B(d[:rng.randrange(23, len(d) + 1)])).d
+        out.append({'k': 'fuzz', 'codec': codec, 'chunks': [d]})
+    return out
+
+_SEEDS = None
+def seed_vectors():
+    """Wire test vectors found in the repository's own NLRI modules (const X: &[u8] = &[..]),
+    used as mostly-valid seeds for the families that are only fuzzed."""
+    global _SEEDS
+    if _SEEDS is not None:
+        return _SEEDS
+    import re
+    from vp.util import REPO
+    fams = {'evpn': [E.EVPN], 'flowspec': [E.IPV4_FS, E.IPV6_FS, E.IPV4_FSVPN, E.IPV6_FSVPN], 'ls': [E.LS],
+            'mup': [E.IPV4_MUP, E.IPV6_MUP], 'sr_policy': [E.IPV4_SRP, E.IPV6_SRP], 'rtc': [E.RTC]}
+    out = []
+    for mod, fl in fams.items():
+        try:
+            src = open(os.path.join(REPO, 'packet', 'src', mod + '.rs')).read()
+        except OSError:
+            continue
+        for m in re.finditer(r'&\[u8\]\s*=\s*&\[(.*?)\];', src, re.S):
+            body = re.sub(r'//[^\n]*', '', m.group(1))
+            try:
+                bs = [int(x, 0) for x in re.split(r'[,\s]+', body.strip()) if x]
+            except ValueError:
+                continue
+            if bs and all(0 <= b < 256 for b in bs) and len(bs) < 300:
+                out.append((fl, bs))
+    _SEEDS = out
+    return out
+
+def gen_fuzz_seeded(rng, n):
+    seeds = seed_vectors()
+    out = []
+    if not seeds:
+        return out
+    for k in range(n):
+        fl, bs = seeds[k % len(seeds)] if k < 2 * len(seeds) else rng.choice(seeds)
+        fam = rng.choice(fl)
+        bs = list(bs)
+        x = rng.random()
+        if k >= len(seeds):
+            if x < 0.3:
+                for _ in range(rng.choice([1, 1, 2, 3])):
+                    j = rng.randrange(len(bs)); bs[j] = rng.choice([0, 1, 0xff, 0x80, bs[j] ^ (1 << rng.randrange(8)), (bs[j] + 1) & 0xff, (bs[j] - 1) & 0xff, rng.randrange(256)])
+            elif x < 0.5: bs = bs[:rng.randrange(len(bs) + 1)]
+            elif x < 0.6: bs = bs + rbytes(rng, rng.choice([1, 2, 8]))
+            elif x < 0.7: bs = bs + list(rng.choice(seeds)[1])
+            elif x < 0.8 and len(bs) > 2: del bs[rng.randrange(len(bs))]
+        ap = rng.random() < 0.15
+        codec = {'ext': False, 'two': False, 'nh': False, 'fams': [(E.IPV4, False), (fam, ap)]}
+        nl = E.with_path_id(rng.randrange(1 << 32), B(bs)) if ap else B(bs)
+        nh = [] if (fam & 0xff) in (133, 134) else rng.choice([rbytes(rng, 4), rbytes(rng, 16)])
+        if rng.random() < 0.7:
+            attrs = [E.attr(0x40, 1, [0]), E.attr(0x40, 2, []), E.attr(0x80, 14, E.mp_reach_value(fam, nh, [nl]))]
+        else:
+            attrs = [E.attr(0x80, 15, E.mp_unreach_value(fam, [nl]))]
+        out.append({'k': 'fuzz', 'codec': codec, 'chunks': [E.update([], attrs, []).d]})
+    return out
+
 def bgp_complete_for(codec):
     mx = 65535 if codec['ext'] else 4096
     def complete(buf):
@@ -528,7 +630,7 @@ class Prop:
             return [0, c['bytes']]
         if c['k'] == 'rtr':
             return [1, c['chunks']]
-        if c['k'] == 'bgp':
+        if c['k'] in ('bgp', 'fuzz'):
             return [2, codec_val(c['codec']), c['chunks']]
         raise ValueError(c)
 
@@ -563,25 +665,34 @@ class Prop:
     # ---- generation
     def gen_cases(self, rng, tier):
         q = tier == 'quick'
-        return gen_bfd(rng, 300 if q else 3000) + gen_rtr(rng, 600 if q else 6000) + gen_bgp(rng, 2500 if q else 25000, tier)
+        return gen_bfd(rng, 300 if q else 3000) + gen_rtr(rng, 600 if q else 6000) + gen_bgp(rng, 2500 if q else 25000, tier) + gen_fuzz(rng, 1500 if q else 30000) + gen_fuzz_seeded(rng, 2500 if q else 60000)
 
     # ---- running
     def run_impl(self, cases, tier):
         return hxpacket.run_both('C03', [self.case_to_val(c) for c in cases])
 
     def run_model(self, cases, tier):
-        pre = 'From RB Require Import Base.Val Base.Bytes Model.Bfd Model.Stream Model.Rtr Model.Wire Model.WireNlri Model.WireUpdate Model.WireMsg.\nOpen Scope N_scope.'
-        return coqrun.eval_terms('C03', pre, [self.case_to_coq(c) for c in cases])
+        pre = ('From RB Require Import Base.Val Base.Bytes Model.Bfd Model.Stream Model.Rtr Model.Wire Model.WireNlri '
+               'Model.WireUpdate Model.WireMsg.\nOpen Scope N_scope.')
+        idx = [i for i, c in enumerate(cases) if c['k'] != 'fuzz']
+        res, err = coqrun.eval_terms('C03', pre, [self.case_to_coq(cases[i]) for i in idx])
+        if res is None:
+            return None, err
+        out = [None] * len(cases)
+        for i, r in zip(idx, res):
+            out[i] = r
+        return out, ''
 
     def canon(self, case, obs):
-        return obs
+        # families behind the oracle are not evaluated in the model: only the Spec oracle judges them
+        return 'not-modelled' if case['k'] == 'fuzz' else obs
 
     # ---- Spec oracle on the implementation's observations [debug, release]
     def oracle(self, c, obs):
         for prof, o in zip(('debug', 'release'), obs):
             if c['k'] == 'bfd': why = oracle_bfd(c, o)
             elif c['k'] == 'rtr': why = oracle_stream(c, o, rtr_complete, 'RtrCodec::decode')
-            elif c['k'] == 'bgp': why = oracle_bgp(c, o)
+            elif c['k'] in ('bgp', 'fuzz'): why = oracle_bgp(c, o)
             else: why = None
             if why:
                 return '%s build: %s' % (prof, why)
@@ -603,7 +714,7 @@ class Prop:
             if not ms and not any(e[0] == 2 for e in o):
                 return None
             return ('rtr', ms, tuple(e[0] for e in o if e[0] != 0))
-        if c['k'] == 'bgp':
+        if c['k'] in ('bgp', 'fuzz'):
             key = []
             for e in o:
                 if e[0] == 0:
@@ -619,7 +730,7 @@ class Prop:
                     key.append(('err', e[1], e[2]))
             if not key: return None
             cd = c['codec']
-            return ('bgp', cd['two'], tuple(key))
+            return (c['k'], cd['two'], cd['fams'][-1][0] if c['k'] == 'fuzz' else 0, tuple(key))
         return None
 
     def classify(self, c, obs):
@@ -634,6 +745,10 @@ class Prop:
             if any(e[0] == 2 for e in o): t.append('rtr_error')
             if o and o[-1][0] == 1 and o[-1][1] > 0: t.append('rtr_pending_bytes')
             return t
+        if c['k'] == 'fuzz':
+            e = o[0] if o else [1]
+            return ['fuzz_family_%d_%d' % (c['codec']['fams'][-1][0] >> 16, c['codec']['fams'][-1][0] & 0xff),
+                    'fuzz_accepted' if e[0] == 0 else 'fuzz_rejected']
         if c['k'] == 'bgp':
             t = ['bgp_chunks_%s' % ('1' if len(c['chunks']) == 1 else '2+')]
             for e in o:
